@@ -1561,6 +1561,8 @@ class LangServer:
         try:
             with open(config_path) as jsonfile:
                 config_dict = json5.load(jsonfile)
+                if not isinstance(config_dict, dict):
+                    raise ValueError("the top-level value must be an object")
 
                 # Include and Exclude directories
                 self._load_config_file_dirs(config_dict)
@@ -1580,6 +1582,10 @@ class LangServer:
 
         except FileNotFoundError:
             self.post_message(f"Configuration file '{self.config}' not found")
+
+        # Unreadable file (permissions, not a regular file, ...)
+        except OSError as e:
+            self.post_message(f"Configuration file '{self.config}' could not be read: {e}")
 
         # Erroneous json file syntax
         except ValueError as e:
@@ -1647,8 +1653,8 @@ class LangServer:
         )
 
     def _load_config_file_preproc(self, config_dict: dict) -> None:
-        self.pp_suffixes = config_dict.get("pp_suffixes", None)
-        self.pp_defs = config_dict.get("pp_defs", {})
+        self.pp_suffixes = config_dict.get("pp_suffixes", self.pp_suffixes)
+        self.pp_defs = config_dict.get("pp_defs", self.pp_defs)
         if isinstance(self.pp_defs, list):
             self.pp_defs = {key: "" for key in self.pp_defs}
 
